@@ -1352,6 +1352,14 @@ func stepLeader(r *raft, m *pb.Message) error {
 					failedCheck = "must transition out of joint config first"
 				} else if !alreadyJoint && wantsLeaveJoint {
 					failedCheck = "not in joint state; refusing empty conf change"
+				} else if err := r.checkConfChange(cc.AsV2()); err != nil {
+					// No other configuration change can be applied between now and
+					// the moment this one is (that is what pendingConfIndex
+					// guarantees), so the change will be applied to the configuration
+					// that is active now. If it cannot be applied to it (e.g. because
+					// it would remove every voter) it must not enter the log: applying
+					// it would panic on every node.
+					failedCheck = err.Error()
 				}
 
 				if failedCheck != "" && !r.disableConfChangeValidation {
@@ -1974,6 +1982,24 @@ func (r *raft) restore(s *pb.Snapshot) bool {
 func (r *raft) promotable() bool {
 	pr := r.trk.Progress[r.id]
 	return pr != nil && !pr.IsLearner && !r.raftLog.hasNextOrInProgressSnapshot()
+}
+
+// checkConfChange reports whether cc could be applied to the active
+// configuration, without changing anything.
+func (r *raft) checkConfChange(cc *pb.ConfChangeV2) error {
+	changer := confchange.Changer{
+		Tracker:   r.trk,
+		LastIndex: r.raftLog.lastIndex(),
+	}
+	var err error
+	if cc.LeaveJoint() {
+		_, _, err = changer.LeaveJoint()
+	} else if autoLeave, ok := cc.EnterJoint(); ok {
+		_, _, err = changer.EnterJoint(autoLeave, cc.Changes...)
+	} else {
+		_, _, err = changer.Simple(cc.Changes...)
+	}
+	return err
 }
 
 func (r *raft) applyConfChange(cc *pb.ConfChangeV2) *pb.ConfState {
